@@ -73,6 +73,7 @@ func (transScenario) Build(cfg string) ([]func(), func(*vsched.Sched) []string) 
 		c.OpenCircuit(context.Background())
 		rec.log = nil
 	}
+	nameVars(c, "c")
 	var bodies []func()
 	for _, op := range cfgStr(cfg, "ops") {
 		switch op {
